@@ -10,11 +10,17 @@ from harness.framework import Suite
 
 PID = "C11"
 TRANSLATE = True
-LEAN_MODS = ["SwcVerif.Props.C11"]
+# T33 `invar`: the C11.generated_* theorems (Props/C11Gen.lean) are about the measures the imperative translator regenerates from the source
+# (L-Measure geometry, Tree.length / Path.* / radial distance, Sholl.intersect, the topological counts) - regenerated on every `./check C11`
+TRANSLATE_ALGO = ["AlgoTraverse", "AlgoNode", "AlgoBranches", "AlgoSubtree", "AlgoLMeasure", "AlgoSholl", "AlgoNodeFeat", "AlgoNodeBranch", "AlgoLmGeo"]
+LEAN_MODS = ["SwcVerif.Props.C11", "SwcVerif.Proofs.Invariance", "SwcVerif.Props.C11Gen"]
 THEOREMS = [
     "C11.rigid_preserves_distances", "C11.scale_distances", "C11.lengths_scale", "C11.ratio_scale", "C11.sholl_scale", "C11.counts_geometry_free",
     "C11.features_factor", "C11.length_relabel", "C11.volume_scale", "C11.concentric_scale'", "C11.concentric_scale_eps0", "C11.concentric_scale_counterexample",
     "C11.exitT_scale", "C11.edgeDot_from_distances", "C11.angle_invariant_of_isometry", "C11.rigid_preserves_angles", "C11.angle_data_scale",
+    "C11.generated_lmgeo_under_map", "C11.generated_bif_angles_under_map", "C11.generated_nodefeat_under_map", "C11.generated_sholl_under_map",
+    "C11.generated_rigid_invariance", "C11.generated_scale", "C11.generated_rigid_source_matrices", "C11.generated_counts_coordinate_free",
+    "C11.moved_mapCols", "Invar.rigid_rowRel", "Invar.scale_rowRel", "Invar.Homog.scale", "Invar.path_length_general",
 ]
 TRUSTED = ["the feature models of C10 (functions of parent relation + distances only), C12's generated matrices (isometry), C13's generated volume forms (homogeneous of degree 3)"]
 ASSUMPTIONS = ["floating-point rounding is outside the theorems (the property itself says 'beyond floating-point rounding'): metamorphic comparisons use relative tolerance 2e-4",
